@@ -242,6 +242,7 @@ static void run(Harness &H) {
     exact_cases<2>(H, x, dx, true);
     exact_cases<3>(H, x, dx, true);
     exact_cases<4>(H, x, dx, true);
+    if (H.thorough() && x.size() <= 4) exact_cases<5>(H, x, dx, true);
   });
 }
 #else
